@@ -69,6 +69,50 @@ func runC19(c *core.Ctx) {
 		c.Unknown("R1", "anchor", "-", "no call into package sort found")
 	}
 	sortFn := p.Func(p.Fpgo, "Sort")
+	// the single sort routine reorders only through sort.SliceStable: exactly one call on every path that has
+	// at least two elements to order, and no element of the slice is written by the routine itself
+	if sortFn == nil {
+		c.Unknown("R1", "Sort/only-stable", "-", "function not found")
+	} else {
+		trivial := func(b, s2 *ssa.BasicBlock) bool {
+			iff, ok := b.Instrs[len(b.Instrs)-1].(*ssa.If)
+			if !ok || len(b.Succs) != 2 {
+				return false
+			}
+			for _, cnd := range core.ExpandCond(core.Cond{V: iff.Cond, True: b.Succs[0] == s2, If: iff}) {
+				cmp, isCmp := core.AsCmp(core.Normalize(cnd))
+				if !isCmp {
+					continue
+				}
+				call, isC := core.Resolve(cmp.X).(*ssa.Call)
+				k, isK := cmp.Y.(*ssa.Const)
+				if !isC || !isK || !core.IsBuiltin(&call.Call, "len") {
+					continue
+				}
+				n := k.Int64()
+				if cmp.Op == token.LSS && n <= 2 || cmp.Op == token.LEQ && n <= 1 || cmp.Op == token.EQL && n <= 1 {
+					return true
+				}
+			}
+			return false
+		}
+		min, max := core.PathCountEdges(sortFn.Blocks[0], nil, func(ins ssa.Instruction) int {
+			if call, ok := ins.(*ssa.Call); ok && core.StdCallee(&call.Call) == "sort.SliceStable" {
+				return 1
+			}
+			return 0
+		}, trivial)
+		writes := ""
+		core.InstrsDeep(sortFn, func(_ *ssa.Function, ins ssa.Instruction) {
+			if st, ok := ins.(*ssa.Store); ok {
+				if _, isIA := st.Addr.(*ssa.IndexAddr); isIA {
+					writes = p.InstrPos(ins)
+				}
+			}
+		})
+		c.Check(min == 1 && max == 1 && writes == "", "R1", "Sort/only-stable", p.Pos(sortFn.Pos()), "every path orders the slice by exactly one sort.SliceStable call; no hand-written element moves",
+			fmt.Sprintf("fpgo.Sort calls sort.SliceStable %d..%d times on a path with two or more elements, hand-written element store at %q: an ordering path that bypasses the stable sort can change the relative order of equal records", min, max, writes))
+	}
 	// delegating entry points
 	type deleg struct {
 		fn   *ssa.Function
